@@ -140,9 +140,9 @@ def audit(ctx, module_file, theorems):
     if p.returncode != 0:
         raise TieBroken('lean-proof', f'{module_file} does not check:\n{out[-3000:]}')
     found = {}
-    for m in re.finditer(r"'([^']+)' depends on axioms: \[([^\]]*)\]", out):
+    for m in re.finditer(r"'(\S+)' depends on axioms: \[([^\]]*)\]", out):
         found[m.group(1)] = {a.strip() for a in m.group(2).split(',') if a.strip()}
-    for m in re.finditer(r"'([^']+)' does not depend on any axioms", out):
+    for m in re.finditer(r"'(\S+)' does not depend on any axioms", out):
         found[m.group(1)] = set()
     for t in theorems:
         if t not in found:
@@ -210,13 +210,13 @@ def trace_tie(ctx, targets):
 
 # ---------------------------------------------------------------- T-corr
 
-def corr(ctx, name, go_cmd, go_args, driver_args, timeout=3600):
+def corr(ctx, name, go_cmd, go_args, driver_args, timeout=3600, only=None, const=None, ok_exit=(0,)):
     """Run a harness generator and the Lean driver on the same lines; compare.
     Returns (n_cases, mismatches [(index, line, code, model)], stats)."""
     g = run([os.path.join(HBIN, go_cmd)] + [str(a) for a in go_args], timeout=timeout)
-    if g.returncode != 0:
+    if g.returncode not in ok_exit:
         raise TieBroken(f'T-corr {name}', f'harness {go_cmd} exited {g.returncode}: {(g.stderr or g.stdout)[-1500:]}')
-    lines, expect = [], []
+    lines, expect, const_mism = [], [], []
     for ln in g.stdout.split('\n'):
         if not ln:
             continue
@@ -225,6 +225,17 @@ def corr(ctx, name, go_cmd, go_args, driver_args, timeout=3600):
                 continue   # printed to stdout by gnark's schema walker for nil slices
             raise RuntimeError(f'bad harness line: {ln[:200]}')
         l, r = ln.split('\t=>\t', 1)
+        kind = l.split('\t', 1)[0]
+        if const and kind in const:
+            # lines whose expected answer is a constant of the protocol (liveness, availability)
+            st0 = ctx.corr.setdefault(name + ':' + kind, {'cases': 0, 'distinct': 0, 'mismatches': 0, 'distribution': {}, 'runs': []})
+            st0['cases'] += 1; st0['distinct'] += 1
+            if r != const[kind]:
+                st0['mismatches'] += 1
+                const_mism.append((len(lines), l, r, const[kind]))
+            continue
+        if only and kind not in only:
+            continue
         lines.append(l); expect.append(r)
     d = run([DRIVER] + driver_args, input='\n'.join(lines) + ('\n' if lines else ''), env=dict(os.environ), timeout=timeout)
     if d.returncode != 0:
@@ -234,7 +245,7 @@ def corr(ctx, name, go_cmd, go_args, driver_args, timeout=3600):
         got.pop()
     if len(got) != len(lines):
         raise RuntimeError(f'driver answered {len(got)} lines for {len(lines)} cases')
-    mism = [(i, lines[i], expect[i], got[i]) for i in range(len(lines)) if expect[i] != got[i]]
+    mism = const_mism + [(i, lines[i], expect[i], got[i]) for i in range(len(lines)) if expect[i] != got[i]]
     stats = {}
     for sl in g.stderr.strip().split('\n'):
         sl = sl.strip()
